@@ -129,6 +129,27 @@ def run_single(rep, prop, tier, seed, n_quick, n_thorough, allow=None, families=
     report(rep, prop, name, results)
 
 
+def run_reuse_C12(rep, tier, seed):
+    """C12 on a second solve with the same Solver object (a recorder registered after the first solve must be told about
+    every step of the second), and in single precision (model times are binary64 sums of the step sizes there too)"""
+    g = Gen(seed + 1212)
+    results = []
+    for k in range(24 if tier == "thorough" else 8):
+        case = C.gen_case(g, "convex_qp", {"iteration_limit": 40, "collect_path": True}, scaling=(k % 2 == 0))
+        if k % 2 == 1:
+            case["cfg"]["precision"] = "Single"
+        ref = C.run(case, keep=True)
+        msg = C.oracle_C12(case, ref)
+        results.append((dict(case, variant="first"), keyof(msg), msg, "first/%s" % (ref.get("status") or ref.get("kind"))))
+        if ref.get("_solver") is not None and ref.get("kind") == "status":
+            again = C.run(case, solver_obj=ref["_solver"])
+            msg = C.oracle_C12(case, again)
+            if msg:
+                msg = "second solve on the same Solver object: " + msg
+            results.append((dict(case, variant="second"), keyof(msg), msg, "second/%s" % (again.get("status") or again.get("kind"))))
+    report(rep, "C12", "reuse_and_single", results)
+
+
 def run_default_start(rep, tier, seed):
     """C05 when the caller gives no start: the default start is the projection of 0 onto the box, not 0"""
     g = Gen(seed + 55)
@@ -515,6 +536,41 @@ def run_C10(rep, tier, seed):
         except Exception as e:
             msg = None
         results.append((dict(case, variant="after_perform_iteration"), keyof(msg), msg, "reuse2/%s" % (ref.get("status") or ref.get("kind"))))
+    # (d) a Params object that was used by an earlier solver and then edited by its owner must act like a fresh
+    #     Params with the same field values (nothing derived from the old values may survive in it)
+    from pygradflow import params as PM
+    import logging
+    from pygradflow.log import logger
+    for i in range(N // 2):
+        case = C.gen_case(g, "convex_qp", {"iteration_limit": 30}, scaling=False)
+        spec = Spec.from_json(case["spec"])
+        edits = {"precision": PM.Precision.Single, "rho": 0.5, "newton_type": PM.NewtonType.Full,
+                 "step_solver_type": PM.StepSolverType.Standard, "linear_solver_type": PM.LinearSolverType.LU}
+        lvl = logger.level
+        logger.setLevel(logging.ERROR)
+        try:
+            def solve(params):
+                prob = C.QuadProblem(spec, fmt=case["prob"]["fmt"])
+                try:
+                    res = Solver(prob, params).solve(np.array(case["x0"], dtype=float), np.array(case["y0"], dtype=float))
+                    return (res.status.name, [float(v) for v in res.x], [float(v) for v in res.y], int(res.iterations))
+                except Exception as e:
+                    return ("raised", type(e).__name__, str(e)[:80])
+            used, _ = C.make_params(case["cfg"], None, spec, case["x0"], case["y0"])
+            solve(used)
+            for k, v in edits.items():
+                setattr(used, k, v)
+            a = solve(used)
+            fresh, _ = C.make_params(case["cfg"], None, spec, case["x0"], case["y0"])
+            for k, v in edits.items():
+                setattr(fresh, k, v)
+            b = solve(fresh)
+        finally:
+            logger.setLevel(lvl)
+        msg = None
+        if a != b:
+            msg = "params_reuse: a Params object used by an earlier solve and then edited gives %r, a fresh one with the same fields %r" % (a, b)
+        results.append((dict(case, variant="edited_params"), keyof(msg), msg, "edited_params/%s" % a[0]))
     report(rep, "C10", "histories", results)
 
 
